@@ -56,6 +56,10 @@ def run_shard(pid, tier, seed, shard, nshards, budget_s, out, only_case=None):
     from pv.ctx import Ctx, dumps
 
     mod = load_check(pid)
+    try:  # the soft budget starts after the (slow, load-dependent) import of the code under test
+        import pennylane  # noqa: F401
+    except Exception:  # noqa: BLE001 - the check itself will report it
+        pass
     ctx = Ctx(pid, tier, seed, shard, nshards, budget_s, only_case=only_case)
     # generous in-process watchdog: dumps stacks (observability only), the parent's timeout decides
     faulthandler.dump_traceback_later(budget_s * 3 + 100, exit=False)
